@@ -802,6 +802,10 @@ func (t Table) OvsRow(r Row, skipDefaults bool) (ovsdb.Row, error) {
 		if skipDefaults && c.IsDefault(v) {
 			continue
 		}
+		if c.Shape() == ShScalar && c.Key.T == TUUID && c.IsDefault(v) {
+			// never spelled out: libovsdb keeps an unset scalar uuid as "" (see DESIGN 2.4)
+			continue
+		}
 		m[name] = ValWire(v, c.Shape() == ShScalar, WireOpts{SingleAsAtom: len(v.K) == 1 && !v.M})
 	}
 	var out ovsdb.Row
